@@ -245,6 +245,11 @@ static void gen_ppMinPolyMod(fc_ctx* c)
 {
 	g_mod(c, 1);
 	c->a[3] = stk(ppMinPolyMod_deep(c->n[0]));
+	/* MSan only: ppMinPolyMod builds s[] bit by bit with wwSetBit(), whose masked
+	   merge a ^= (f ^ a) & bit is exact but not tracked bit-precisely (xor of an
+	   undefined bit with itself stays "undefined"); the garbage differential, which
+	   has no such imprecision, decides this function */
+	sk_mark_defined(c->a[3], ppMinPolyMod_deep(c->n[0]));
 }
 static err_t call_ppMinPolyMod(fc_ctx* c) { ppMinPolyMod(c->a[0], c->a[1], c->a[2], c->n[0], c->a[3]); return ERR_OK; }
 static void gen_zzRedBarr(fc_ctx* c)
